@@ -498,6 +498,34 @@ func byteLevel(r *Rng, d []byte) []byte {
 	return d
 }
 
+// sameShape: a document with exactly the layout of d (same length, same offsets of every
+// construct) whose letters and digits partly differ. It is what a cache keyed by a position in
+// the caller's buffer, by a length, or by the first/last byte of a text confuses with d —
+// most effectively when the caller reads both into the same reused buffer. interior: keep the
+// first and last byte of every word.
+func sameShape(r *Rng, d []byte, interior bool) []byte {
+	out := append([]byte{}, d...)
+	isAl := func(c byte) bool { return c >= 'a' && c <= 'z' || c >= 'A' && c <= 'Z' || c >= '0' && c <= '9' }
+	rate := pick(r, []int{8, 25, 60})
+	for i, c := range out {
+		if !isAl(c) || r.Intn(100) >= rate {
+			continue
+		}
+		if interior && (i == 0 || i == len(out)-1 || !isAl(d[i-1]) || !isAl(d[i+1])) {
+			continue
+		}
+		switch {
+		case c >= 'a' && c <= 'z':
+			out[i] = byte('a' + r.Intn(26))
+		case c >= 'A' && c <= 'Z':
+			out[i] = byte('A' + r.Intn(26))
+		default:
+			out[i] = byte('0' + r.Intn(10))
+		}
+	}
+	return out
+}
+
 // genComposite: one document made of k different construct families. Used where a single
 // conversion should touch as many corners of the library as possible (a process's very first
 // conversions: everything initialised lazily at package level is first used there).
